@@ -506,6 +506,28 @@ func init() {
 				}
 			}
 		}
+		// members pinned to enum members (constant references; CUE only): generated schema text
+		npinned := argInt(args, "pinned", 0)
+		if only, ok := args["format"]; ok && only != "cue" {
+			npinned = 0
+		}
+		for i := 0; i < npinned; i++ {
+			d, text := c11GenPinned(seed, i)
+			d.walkTags(func(t string) { hist[t]++ })
+			hist["pinned-enum-member"]++
+			c := lab.AddCaseText("cue", text, d)
+			cases = append(cases, c)
+			pinOf[c.ID] = fmt.Sprintf("pinned%d", i)
+			r := newRng(seed*7919 + uint64(i)*131 + 17)
+			docs[c.ID] = append(docs[c.ID], c11FullDoc(d, r))
+			dg := newDocGen(d, r, defaultDocOpts())
+			for k := 1; k < ndocs; k++ {
+				docs[c.ID] = append(docs[c.ID], dg.validDoc())
+			}
+			for k, v := range dg.tags {
+				dhist[k] += v
+			}
+		}
 		if args["n"] != "0" {
 			err = iterDefs(args, func(i int, d *Defs) error {
 				d.walkTags(func(t string) { hist[t]++ })
